@@ -115,6 +115,8 @@ class Recorder:
         if hy:
             arrs = _arrays_in(list(a) + [v for kk, v in k.items() if kk not in OUT_ARGS])
             snaps = [v.copy() for v in arrs]
+            lists = [v for v in list(a) + [v for kk, v in k.items() if kk not in OUT_ARGS] if isinstance(v, (list, dict))]
+            lsnaps = [_list_snap(v) for v in lists]
             rng_state = np.random.get_state()
             prev = self._prev_out
             prev_snaps = [(o, o.copy()) for o in prev[1]] if prev else []
@@ -130,6 +132,9 @@ class Recorder:
             for v, s0 in zip(arrs, snaps):
                 if name.split('.')[-1] not in INPLACE_OK and not _same_array(v, s0):
                     self.violation(f'{name}:hygiene:input-mutated', f'{name} modified an array argument of shape {v.shape} in place')
+            for v, s0 in zip(lists, lsnaps):
+                if name.split('.')[-1] not in INPLACE_OK and _list_snap(v) != s0:
+                    self.violation(f'{name}:hygiene:input-mutated', f'{name} modified a {type(v).__name__} argument in place (length {s0[0]} -> {len(v)})')
             for o, s0 in prev_snaps:
                 if not _same_array(o, s0):
                     self.violation(f'{prev[0]}:hygiene:result-changed-by-later-call',
@@ -161,6 +166,7 @@ class Recorder:
                 if fv.size:
                     floor = max(floor, float(fv.max()))
         floor = max(floor, 1.0) if floor else 0.0
+        small_in = any(v.dtype in (np.float32, np.complex64, np.float16) for v in _arrays_in(list(a) + list(k.values())))
         ref = [o.copy() for o in _result_arrays(out, ext)]
         # same buffers, new content: an identity-keyed cache would answer for the old content.  This variant runs FIRST, directly
         # after the original call and with the very same argument objects, so that a memo of "the most recent array" (one entry,
@@ -182,7 +188,7 @@ class Recorder:
                     fresh_k = {kk: _map_arrays(v, np.copy) for kk, v in k.items()}
                     np.random.set_state(rng_state)
                     want = [o.copy() for o in _result_arrays(f(*fresh_a, **fresh_k), ext)]
-                    if not _close_lists(got, want, floor):
+                    if not _close_lists(got, want, floor, small_in):
                         self.violation(f'{name}:hygiene:stale-for-reused-buffer',
                                        f'{name} called again after its argument buffer was overwritten in place answers for the old content')
                 except Exception:   # noqa  -- the flipped content may be outside the routine's domain: not judged
@@ -190,6 +196,12 @@ class Recorder:
                 finally:
                     for v, o in zip(fl, orig):
                         v[...] = o
+                # the calls above had the same shapes / dtypes and other content: the array(s) returned by the ORIGINAL call belong
+                # to the caller and must still hold the original answer (a per-shape output buffer handed out again would not)
+                now = _result_arrays(out, ext)
+                if len(now) == len(ref) and any(not _same_array(x, y) for x, y in zip(now, ref)):
+                    self.violation(f'{name}:hygiene:result-changed-by-later-call',
+                                   f'the array returned by {name} was overwritten by a later call of {name} with arguments of the same shapes and other content (output buffer handed out twice)')
         # the identical call again (same global RNG state): the answer depends on the arguments only
         self.evals += 1
         try:
@@ -198,7 +210,7 @@ class Recorder:
         except Exception as e:   # noqa
             self.violation(f'{name}:hygiene:not-repeatable', f'{name} raised {type(e).__name__} when the identical call was repeated: {e}')
             return
-        if not _close_lists(rep, ref, floor):
+        if not _close_lists(rep, ref, floor, small_in):
             self.violation(f'{name}:hygiene:not-repeatable', f'{name} gives a different result when the identical call is repeated')
             return
         # (e) a plain function's result belongs to the caller: scribbling on it must not change what the next identical call returns
@@ -217,7 +229,7 @@ class Recorder:
                     self.evals += 1
                     np.random.set_state(rng_state)
                     again = _result_arrays(f(*inputs_before, **kw_before), ext)
-                    if not _close_lists(again, ref, floor):
+                    if not _close_lists(again, ref, floor, small_in):
                         self.violation(f'{name}:hygiene:result-shared-with-internal-state',
                                        f'after the caller wrote into the array returned by {name}, the next identical call returns the modified values (the result aliases a cache / module-level table)')
             except Exception:   # noqa
@@ -228,6 +240,19 @@ class Recorder:
                         o[...] = sv
                     except Exception:   # noqa
                         pass
+        # non-contiguous views of every array argument (a slice of a larger array, a flipped axis): the same values must
+        # give the same answer
+        if any(v.ndim >= 1 and v.size > 1 for v in _arrays_in(list(a) + list(k.values()))):
+            sa = [_map_arrays(v, _strided) for v in a]
+            sk = {kk: _map_arrays(v, _strided) for kk, v in k.items()}
+            self.evals += 1
+            try:
+                np.random.set_state(rng_state)
+                o3 = _result_arrays(f(*sa, **sk), ext)
+                if not _close_lists(o3, ref, floor, small_in):
+                    self.violation(f'{name}:hygiene:memory-layout', f'{name} gives a different result for non-contiguous (strided, reversed-stride) views of its array arguments')
+            except Exception as e:   # noqa
+                self.violation(f'{name}:hygiene:memory-layout', f'{name} raised {type(e).__name__} for non-contiguous views of its array arguments: {e}')
         # Fortran-ordered copies of every >= 2-D array argument
         if any(v.ndim >= 2 and v.size > 1 for v in _arrays_in(list(a) + list(k.values()))):
             fa = [_map_arrays(v, _fortran) for v in a]
@@ -236,7 +261,7 @@ class Recorder:
             try:
                 np.random.set_state(rng_state)
                 o2 = _result_arrays(f(*fa, **fk), ext)
-                if not _close_lists(o2, ref, floor):
+                if not _close_lists(o2, ref, floor, small_in):
                     self.violation(f'{name}:hygiene:memory-layout', f'{name} gives a different result for Fortran-ordered copies of its array arguments')
             except Exception as e:   # noqa
                 self.violation(f'{name}:hygiene:memory-layout', f'{name} raised {type(e).__name__} for Fortran-ordered array arguments: {e}')
@@ -353,6 +378,12 @@ def _arrays_in(vals):
     return out
 
 
+def _list_snap(v):
+    """(length, reprs of the non-array items) of a list / dict argument -- arrays inside are snapshotted separately"""
+    items = list(v.items()) if isinstance(v, dict) else list(v)
+    return (len(items), tuple(None if isinstance(w, np.ndarray) else repr(w)[:200] for w in items))
+
+
 def _map_arrays(v, fn):
     if isinstance(v, np.ndarray):
         return fn(v)
@@ -365,6 +396,19 @@ def _map_arrays(v, fn):
 
 def _fortran(v):
     return np.asfortranarray(v) if v.ndim >= 2 else v
+
+
+def _strided(v):
+    """the same values as a non-contiguous view (every second element of a larger buffer along the last axis, and a
+    negative-stride first axis for >= 2-D), as a slice of a user's larger array would be"""
+    if v.ndim < 1 or v.size < 2:
+        return v
+    big = np.zeros(v.shape[:-1] + (2 * v.shape[-1],), dtype=v.dtype)
+    if v.ndim >= 2:
+        big[::-1, ..., ::2] = v
+        return big[::-1, ..., ::2]
+    big[::2] = v
+    return big[::2]
 
 
 def _is_plain(f, name):
@@ -423,7 +467,7 @@ def _swap(v, olds, news):
     return v
 
 
-def _close_lists(got, want, floor=0.0):
+def _close_lists(got, want, floor=0.0, small_in=False):
     if len(got) != len(want):
         return False
     for g, w in zip(got, want):
@@ -441,7 +485,7 @@ def _close_lists(got, want, floor=0.0):
         if not np.array_equal(gg[~fin], ww[~fin]):
             return False
         scale = float(np.max(np.abs(ww[fin]))) if fin.any() else 0.0
-        small = g.dtype in (np.float32, np.complex64) or w.dtype in (np.float32, np.complex64)
+        small = small_in or g.dtype in (np.float32, np.complex64) or w.dtype in (np.float32, np.complex64)   # small_in: a single-precision argument
         tol = (1e-4 if small else 1e-9) * max(scale, 1e-300) + (1e-6 if small else 1e-12) * floor   # floor: results that are pure cancellation noise of O(1) inputs
         if fin.any() and float(np.max(np.abs(gg[fin] - ww[fin]))) > tol:
             return False
